@@ -250,43 +250,38 @@ var lambdaRe = regexp.MustCompile(`\(lambda `)
 func solve(dir string, text func(noLambda bool) string, quickS, fullS int) (solveResult, []solveResult) {
 	var all []solveResult
 	ctx := context.Background()
-	r := runSolver(ctx, solvers[0], dir, text(false), quickS)
-	all = append(all, r)
-	if r.status == "unsat" || r.status == "sat" {
-		return r, all
-	}
-	type res struct{ r solveResult }
-	ch := make(chan solveResult, 4)
-	cctx, cancel := context.WithCancel(ctx)
-	defer cancel()
-	n := 0
-	for i, sp := range solvers {
-		if i == 0 && fullS <= quickS {
-			continue
-		}
-		n++
-		go func(sp solverSpec) {
-			ch <- runSolver(cctx, sp, dir, text(sp.noLambda), fullS)
-		}(sp)
-	}
+	// first round: both z3 versions race with the short budget
+	// second round: all three with the full budget
+	rounds := []struct {
+		idx []int
+		t   int
+	}{{[]int{0, 1}, quickS}, {[]int{0, 1, 2}, fullS}}
 	var best solveResult
-	best = r
-	for i := 0; i < n; i++ {
-		x := <-ch
-		all = append(all, x)
-		if x.status == "unsat" {
-			cancel()
-			return x, all
+	best.status = "error"
+	for ri, rd := range rounds {
+		if ri == 1 && fullS <= quickS {
+			break
 		}
-		if x.status == "sat" && best.status != "sat" {
-			best = x
-			// a sat answer is definite too; stop waiting
-			cancel()
-			return best, all
+		ch := make(chan solveResult, 4)
+		cctx, cancel := context.WithCancel(ctx)
+		for _, i := range rd.idx {
+			sp := solvers[i]
+			go func(sp solverSpec) {
+				ch <- runSolver(cctx, sp, dir, text(sp.noLambda), rd.t)
+			}(sp)
 		}
-		if best.status == "error" && x.status != "error" {
-			best = x
+		for range rd.idx {
+			x := <-ch
+			all = append(all, x)
+			if x.status == "unsat" || x.status == "sat" {
+				cancel()
+				return x, all
+			}
+			if best.status == "error" || (best.status == "timeout" && x.status == "unknown") {
+				best = x
+			}
 		}
+		cancel()
 	}
 	return best, all
 }
